@@ -214,11 +214,13 @@ def model_ast(a, keys, norm):
 
 def run(ctx):
     ctx.proofs('Props/C01.v')
+    ctx.table_proofs('C01Tables.v')
     build.extract_and_driver()
     h = build.harness()
     quick = ctx.tier == 'quick'
     sess = markers.Session(h)
     keys = markers.Keys(sess.p)
+    markers.check_source_tables(ctx, keys)
     pv, pfv = keys.spelling['python_version'][1], keys.spelling['python_full_version'][1]
     drv = fw.Proc(build.DRIVER)
     names = {}
